@@ -90,6 +90,14 @@ static void one_case(uint64_t N, uint64_t nrows, uint64_t ncols, uint64_t a_size
   snap_take(&sm, mat, nrows * ncols * N * 8);
   zvec_snap(&sa, &A);
   vmp_prepare_contiguous(mod, pmat, mat, nrows, ncols, tprep);
+  if (snap_cmp_free(&sm) >= 0) viol("snapshot", "vmp_prepare_contiguous modified the integer matrix");
+  // the prepared matrix is a value of its own: the integer matrix and the preparation scratch are overwritten before it is used
+  // (a preparation that keeps pointers into its arguments, or defers work to the first product, reads the noise)
+  int64_t* const mat0 = malloc(nrows * ncols * N * 8 + 8);
+  memcpy(mat0, mat, nrows * ncols * N * 8);
+  fill_pattern((uint8_t*)mat, nrows * ncols * N * 8, 3, case_index() * 7 + 1);
+  gb_prefill(&gt, (int)(rep & 3), 4242);
+  cnt("prepare_arguments_overwritten_before_use", 1);
   snap_take(&sp, pmat, bytes_of_vmp_pmat(mod, nrows, ncols));
   // entry point 1: from integer coefficients
   vmp_apply_dft(mod, rd, res_size, A.p, a_size, A.sl, pmat, nrows, ncols, tapp);
@@ -114,7 +122,7 @@ static void one_case(uint64_t N, uint64_t nrows, uint64_t ncols, uint64_t a_size
     for (uint64_t i = 0; i < N; i++) acc[i] = 0;
     if (j < ncols)
       for (uint64_t row = 0; row < row_max; row++) {
-        const int64_t* mij = mat + (row * ncols + j) * N;
+        const int64_t* mij = mat0 + (row * ncols + j) * N;
         negacyclic_exact(N, zvec_limb(&A, row), mij, prod);
         for (uint64_t i = 0; i < N; i++) acc[i] += prod[i];
         E += pair_E(N, zvec_limb(&A, row), mij);
@@ -138,7 +146,7 @@ static void one_case(uint64_t N, uint64_t nrows, uint64_t ncols, uint64_t a_size
   gauge_max("worst_err_over_budget", (double)worst_ratio);
   long wh, d;
   char msg[200];
-  if (snap_cmp_free(&sm) >= 0) viol("snapshot", "vmp_prepare_contiguous modified the integer matrix");
+  free(mat0);
   if ((d = zvec_snap_cmp_free(&sa, &A)) >= 0) viol("snapshot", "vmp_apply_dft modified input a at byte %ld", d);
   if (zvec_check(&A, msg, sizeof msg)) viol("canary", "a: %s", msg);
   gbuf_t* gs[] = {&gm, &gp, &gt, &gt2, &gt3, &gd, &gd2, &gad, &gb1, &gb2};
